@@ -27,7 +27,7 @@
              (pool: the fetcher's cookie pool after the call, through the VerifData hook; empty without NTS)
    The model's AEAD is the table; a query that is not in the table poisons the case. *)
 From Coq Require Import ZArith List String Bool.
-From ST Require Import Base.Ints Base.Value Model.NtpTime Model.ClientAccept Extract.GlueBase.
+From ST Require Import Base.Ints Base.Value Model.NtpTime Model.ClientAccept Model.AuthModes Extract.GlueBase.
 Import ListNotations.
 Open Scope string_scope.
 Open Scope Z_scope.
@@ -308,4 +308,57 @@ Definition glue_ctxdone (k : string) (a o : list value) : option verdict :=
     end
   else None.
 
-Definition run_case (k : string) (a o : list value) : verdict := first_some [glue_C05; glue_badlocal; glue_ctxdone] k a o.
+(* "svc.authmodes": the real service's loadConfig / createClocks run on a configuration text (harness/svclib, hook
+   timeservice_wiring_verif.go); args = [mode ...] daemon [scion ...] (auth_modes as codes 1 nts, 2 spao, other =
+   unknown; scion_daemon_address configured; per clock of the two lists in order: SCION clock or IP clock),
+   outs = fatal [[auth nts ke quic drkey] ...per client of the clock] ...per clock] *)
+Definition aclient_value (c : aclient) : value :=
+  VL [VZ (if a_auth c then 1 else 0); VZ (if a_nts c then 1 else 0); VZ (a_ke c); VZ (if a_quic c then 1 else 0);
+      VZ (if a_drkey c then 1 else 0)].
+Definition aclient_of (v : value) : option aclient :=
+  match v with
+  | VL [VZ au; VZ nt; VZ ke; VZ qu; VZ dk] =>
+      Some {| a_auth := zb au; a_nts := zb nt; a_ke := ke; a_quic := zb qu; a_drkey := zb dk |}
+  | _ => None
+  end.
+Fixpoint getZs (l : list value) : option (list Z) :=
+  match l with
+  | [] => Some []
+  | VZ z :: r => match getZs r with Some zs => Some (z :: zs) | None => None end
+  | _ => None
+  end.
+(* all clients of all clocks; None if a value is malformed *)
+Fixpoint clients_of (l : list value) : option (list aclient) :=
+  match l with
+  | [] => Some []
+  | VL cs :: r =>
+      match (fix go (x : list value) := match x with
+                                        | [] => Some []
+                                        | v :: t => match aclient_of v, go t with Some a, Some b => Some (a :: b) | _, _ => None end
+                                        end) cs, clients_of r with
+      | Some a, Some b => Some (a ++ b)%list
+      | _, _ => None
+      end
+  | _ => None
+  end.
+Definition glue_authmodes (k : string) (a o : list value) : option verdict :=
+  if is k "svc.authmodes" then
+    match a with
+    | [VL mv; VZ daemon; VL sv] =>
+        match getZs mv, getZs sv with
+        | Some modes, Some scions =>
+            let expected :=
+              VZ 0 :: map (fun s => VL (repeat (aclient_value (wired_client modes (zb daemon) (zb s))) (if zb s then 7%nat else 1%nat))) scions in
+            let oracle := match o with
+                          | VZ 0 :: clocks => match clients_of clocks with Some cs => C05_cfg_ok modes cs | None => false end
+                          | VZ _ :: _ => true   (* the service refused the configuration: no client was built *)
+                          | _ => false
+                          end in
+            Some (functional expected o oracle)
+        | _, _ => Some (relational false true)
+        end
+    | _ => Some (relational false true)
+    end
+  else None.
+
+Definition run_case (k : string) (a o : list value) : verdict := first_some [glue_C05; glue_badlocal; glue_ctxdone; glue_authmodes] k a o.
